@@ -762,8 +762,19 @@ fn oracle_tx(c: &Case, fails: &mut Vec<String>, st: &mut Stats) {
                     }
                     let nbr = nbr.wrapping_sub(1);
                     if !(p.mf || p.off != 0) {
-                        match pending.iter().position(|(d, _, n)| *d == p.payload && *n == nbr) {
+                        // prefer an ingress reply when a train is in progress (identical payloads may be queued both ways)
+                        let in_train = cur.is_some();
+                        let pos = pending
+                            .iter()
+                            .position(|(d, s, n)| *d == p.payload && *n == nbr && (!in_train || !*s))
+                            .or_else(|| pending.iter().position(|(d, _, n)| *d == p.payload && *n == nbr));
+                        match pos {
                             Some(i) => {
+                                if in_train && pending[i].1 {
+                                    // between the first and the last fragment of a train only ingress-triggered
+                                    // whole packets may appear: a socket packet there overtakes the rest of the train
+                                    fail("socket-packet-inside-fragment-train", format!("op#{} a {} byte socket datagram is emitted while train ident {} is incomplete", opi, p.payload.len(), cur.as_ref().unwrap().0));
+                                }
                                 pending.remove(i);
                                 bump(st, "tx_whole_datagrams");
                             }
@@ -1031,6 +1042,11 @@ fn main() {
             ops.extend(polls(1, 2));
             ops.extend(polls(-1, 4));
             v.push(mk("dropped-reply-must-not-redirect-train-in-flight", "eth", 576, "u", ops));
+            // one socket, Ethernet, IP MTU 576: 1400, 1200 and 10 bytes queued back to back: the small datagram
+            // must not be emitted between the fragments of a train
+            let mut ops = vec![format!("send 0 {} 0", udp(0, 0x71, 1400)), format!("send 0 {} 0", udp(0, 0x72, 1200)), format!("send 0 {} 0", udp(0, 0x73, 10))];
+            ops.extend(polls(-1, 8));
+            v.push(mk("small-datagram-overtakes-fragment-train", "eth", 590, "u", ops));
             for c in v {
                 if tier == "quick" || tier == c.id {
                     c.write(&mut out);
